@@ -197,7 +197,9 @@ def eval_cases(run, impl, model, wd, hist, cases, tag):
         mk_case(src, dst, cut, flips, reset=hist.get("reset"))
         k = ci % nchunk
         rcrc = case[2] if len(case) > 2 and case[2] is not None else crc
-        full = (ci % 5 == 0) or any(e == cut for e, _ in hist["sps"]) or (flips and not (crc & rcrc & 1) and ci % 2 == 0)
+        # full = the model also applies the records to the main file (bytes compared); otherwise verdict + applied-record trace.
+        # Cross-configuration cases sit mostly on savepoint ends, which the same-configuration stream already runs in full.
+        full = (ci % 5 == 0) or (rcrc == crc and any(e == cut for e, _ in hist["sps"])) or (flips and not (crc & rcrc & 1) and ci % 2 == 0)
         chunks_m[k].append("wal %s/a %d%s" % (dst, rcrc, "" if full else " ops"))
         chunks_i[k] += ["wal %s/a %d" % (dst, rcrc), "rec %s/b %d -1" % (dst, rcrc)]
         idx[k].append(ci)
